@@ -65,11 +65,11 @@ static int v_wait(pthread_mutex_t *m)
 
 static struct result_handler RH;
 static int cb_calls;
-static int tokens[4];
+static int tokens[6];
 static void *job_fn(void *a) { cb_calls++; return a; }
 
 static struct thread *g_me, *g_returned;
-static struct thread *Q[3], *I[3];
+static struct thread *Q[4], *I[4];
 static struct threadpool *pool;
 static struct resultq *rq;
 static struct thread *mk_thread(void);
@@ -147,7 +147,7 @@ static size_t rq_len_and_inv(void)
 {
 	size_t n = 0;
 	struct thread *t = rq->head, *last = NULL;
-	for (int i = 0; i < 5; i++) { if (!t) break; n++; last = t; t = t->next; }
+	for (int i = 0; i < 8; i++) { if (!t) break; n++; last = t; t = t->next; }
 	V_ASSERT(t == NULL, "C13: result queue is not a NULL-terminated list (cycle or garbage link)");
 	V_ASSERT(rq->ptail == (last ? &last->next : &rq->head), "C13: result queue tail pointer does not address the last link (next enqueue would be lost or corrupt the list)");
 	V_ASSERT(rq->nthreads >= n, "C13: outstanding-thread count below the number of queued threads");
@@ -157,7 +157,7 @@ static size_t pool_len_and_inv(void)
 {
 	size_t n = 0;
 	struct thread *t = pool->head;
-	for (int i = 0; i < 5; i++) {
+	for (int i = 0; i < 8; i++) {
 		if (!t) break;
 		V_ASSERT(t->cb == NULL && t->res == NULL && !t->running, "C13: a thread on the idle list still carries a job / result / running flag");
 		n++;
@@ -172,7 +172,7 @@ static size_t pool_len_and_inv(void)
 void h_dispatch(void)
 {
 	verif_stop_is_violation = 1;
-	size_t max = (size_t)vn_range(1, 6);
+	size_t max = (size_t)vn_range(1, 10);
 	build(max);
 	/* enabled only when it would not block: an idle thread exists or one more may be created */
 	V_ASSUME(IDLEN > 0 || pool->count < pool->max);
@@ -207,15 +207,15 @@ void h_dispatch(void)
 void h_resultq_next(void)
 {
 	verif_stop_is_violation = 1;
-	build((size_t)vn_range(1, 6));
+	build((size_t)vn_range(1, 10));
 	V_ASSUME(RQN >= 1);
 	Q[0]->running = false;
-	Q[0]->res = &tokens[1];
+	Q[0]->res = &tokens[4];
 	size_t n0 = rq_len_and_inv(), i0 = pool_len_and_inv(), nt0 = rq->nthreads;
 	void *res = NULL;
 	bool got = resultq_next(rq, &res);
 	V_ASSERT(!v_blocked && got, "C13: a finished head result is available but resultq_next blocks / reports the end");
-	V_ASSERT(res == &tokens[1] && Q[0]->res == NULL, "C13: the head thread's result is handed out once and cleared");
+	V_ASSERT(res == &tokens[4] && Q[0]->res == NULL, "C13: the head thread's result is handed out once and cleared");
 	size_t n1 = rq_len_and_inv(), i1 = pool_len_and_inv();
 	V_ASSERT(n1 == n0 - 1 && (RQN < 2 || rq->head == Q[1]), "C13: exactly the head is removed from the result queue");
 	V_ASSERT(rq->nthreads == nt0 - 1, "C13: outstanding-thread count decremented once");
@@ -228,7 +228,7 @@ void h_resultq_next(void)
 void h_resultq_end(void)
 {
 	verif_stop_is_violation = 1;
-	build((size_t)vn_range(1, 6));
+	build((size_t)vn_range(1, 10));
 	V_ASSUME(RQN == 0);
 	rq->finished = vn_bool();
 	bool done = rq->finished && rq->nthreads == 0;
@@ -248,7 +248,7 @@ void h_resultq_end(void)
 void h_worker_step(void)
 {
 	verif_stop_is_violation = 1;
-	build((size_t)vn_range(1, 6));
+	build((size_t)vn_range(1, 10));
 	/* an ordered job's thread sits in the result queue since dispatch (any position); an unordered
 	 * one is outside the queue but counted in nthreads since dispatch */
 	struct thread *me;
@@ -261,14 +261,14 @@ void h_worker_step(void)
 	}
 	me->running = true;
 	me->cb = job_fn;
-	me->arg = &tokens[2];
+	me->arg = &tokens[5];
 	me->rq = ORDERED ? NULL : rq;
 	size_t n0 = rq_len_and_inv();
 	g_me = me;
 	v_block_mode = 1;
 	thread_worker(me);		/* one job, then it waits; the environment answers with the shutdown signal */
 	V_ASSERT(v_blocked == 1, "C13: after its job the worker must wait for the next one (it neither exits nor spins)");
-	V_ASSERT(cb_calls == 1 && snap_res == &tokens[2], "C13: the job runs exactly once and its result is stored");
+	V_ASSERT(cb_calls == 1 && snap_res == &tokens[5], "C13: the job runs exactly once and its result is stored");
 	V_ASSERT(snap_cb_null && !snap_running, "C13: worker clears its mailbox and stops running");
 	size_t n1 = rq_len_and_inv();
 	if (ORDERED) {
@@ -302,7 +302,7 @@ void h_worker_shutdown(void)
 void h_dispatch_saturated(void)
 {
 	verif_stop_is_violation = 1;
-	build((size_t)vn_range(1, 6));
+	build((size_t)vn_range(1, 10));
 	V_ASSUME(IDLEN == 0 && pool->count == pool->max);
 	size_t c0 = pool->count, nt0 = rq->nthreads;
 	v_block_mode = 3;
@@ -330,7 +330,7 @@ static void result_fn(void *res, void *cbdata)
 void h_result_worker(void)
 {
 	verif_stop_is_violation = 1;
-	build((size_t)vn_range(1, 6));
+	build((size_t)vn_range(1, 10));
 	for (size_t i = 0; i < RQN; i++) { Q[i]->running = false; Q[i]->res = &tokens[i]; }
 	rq->nthreads = RQN;			/* everything outstanding is already queued */
 	struct result_handler *rh = calloc(1, sizeof(*rh));
@@ -369,7 +369,7 @@ void h_handler_lifecycle(void)
 void h_pool_destroy(void)
 {
 	verif_stop_is_violation = 1;
-	build((size_t)vn_range(1, 6));
+	build((size_t)vn_range(1, 10));
 	V_ASSUME(pool->count == IDLEN);
 	threadpool_destroy(&pool);
 	V_ASSERT(pool == NULL && v_joined == IDLEN && !v_blocked, "C13: threadpool_destroy joins every thread and returns");
